@@ -178,9 +178,19 @@ FLOAT_BIN = {
 }
 
 
+class Val:
+    """a model value: the float and whether the node holding it is a constant node"""
+
+    __slots__ = ("v", "c")
+
+    def __init__(self, v, c):
+        self.v = v
+        self.c = c
+
+
 class FloatCtx:
     """evaluate a Context method body over a float model (only to enumerate the finite set of
-    orderings / zero-ness of its operands)"""
+    orderings / zero-ness / constness of its operands)"""
 
     def __init__(self, root=None):
         self.root = root
@@ -192,17 +202,20 @@ class FloatCtx:
             raise ValueError("too deep")
         try:
             if name == "constant":
-                return args[0]
+                return Val(args[0].v, True)
             if name == "not":
-                return f_not(args[0])
+                return Val(f_not(args[0].v), args[0].c)
             if name == "neg":
-                return -args[0]
+                return Val(-args[0].v, args[0].c)
             if name == "square":
-                return args[0] * args[0]
+                return Val(args[0].v * args[0].v, args[0].c)
             fn = cfn(name, self.root)
             params = [A.binding_name(i["pat"]) for i in fn["sig"]["inputs"] if "pat" in i]
             env = dict(zip(params, args))
-            return self.block(fn["body"], env)
+            r = self.block(fn["body"], env)
+            if isinstance(r, tuple) and r[0] == "return":
+                r = r[1]
+            return r
         finally:
             self.depth -= 1
 
@@ -225,7 +238,7 @@ class FloatCtx:
             e = A.stmt_expr(s)
             r = self.ev(e, env)
             if isinstance(r, tuple) and r[0] == "return":
-                return r[1]
+                return r  # propagate to the enclosing function
             last = r
         return last
 
@@ -235,7 +248,7 @@ class FloatCtx:
         if k == "Try":
             return self.ev(e["e"], env)
         if k == "Lit":
-            return float(e["v"])
+            return Val(float(e["v"]), True)
         if k == "Path" and len(e["segs"]) == 1:
             return env[e["segs"][0]]
         if k == "Call" and A.is_path(e["func"], "Ok"):
@@ -249,13 +262,11 @@ class FloatCtx:
             if m in ("op_binary", "op_binary_commutative"):
                 op = A.path_segs(e["args"][2])[1]
                 a, b = self.ev(e["args"][0], env), self.ev(e["args"][1], env)
-                return FLOAT_BIN[op](a, b)
+                return Val(FLOAT_BIN[op](a.v, b.v), a.c and b.c)
             args = [self.ev(a, env) for a in e["args"]]
             return self.call(m, args)
         if k == "If":
-            c = A.strip(e["cond"])
-            # `if let Op::Const(v) = op_a [&& v.0 == 0.0]` : every operand of the model is a constant
-            truth, env2 = self.cond(c, env)
+            truth, env2 = self.cond(A.strip(e["cond"]), env)
             if truth:
                 return self.block(e["then"], env2)
             if e.get("else") is not None:
@@ -277,7 +288,7 @@ class FloatCtx:
                         lv = A.lit_value(subs[0]["lit"]) if segs == ["Ok"] and subs and subs[0].get("k") == "PLit" else None
                         if lv is None:
                             raise ValueError("arm %s" % A.unparse(el))
-                        if not getattr(self, "const_mode", True) or v != lv:
+                        if not v.c or v.v != lv:
                             ok = False
                     if ok:
                         return self.ev(arm["body"], env)
@@ -296,17 +307,16 @@ class FloatCtx:
             segs, subs = A.pat_variant(c["pat"])
             src = A.ident(A.strip(c["e"]))
             if segs == ["Op", "Const"] and src in env and isinstance(env[src], tuple) and env[src][0] == "op":
-                if not getattr(self, "const_mode", True):
+                if not env[src][1].c:
                     return False, env
                 e2 = dict(env)
                 e2[A.binding_name(subs[0])] = env[src][1]
                 return True, e2
             raise ValueError("if-let %s" % A.unparse(c)[:40])
         if c.get("k") == "Binary" and c["op"] == "==" and A.ident(A.strip(c["left"])) and A.ident(A.strip(c["right"])):
-            # node identity: equal constants are one node; distinct non-constant operands are distinct nodes
-            if not getattr(self, "const_mode", True):
-                return False, env
-            return env[A.ident(A.strip(c["left"]))] == env[A.ident(A.strip(c["right"]))], env
+            # node identity: equal constants are one (interned) node; other operands are distinct nodes
+            a, b = env[A.ident(A.strip(c["left"]))], env[A.ident(A.strip(c["right"]))]
+            return (a is b) or (a.c and b.c and a.v == b.v), env
         if c.get("k") == "Binary" and c["op"] in ("==", "!="):
             l = self.val(c["left"], env)
             r = self.val(c["right"], env)
@@ -319,7 +329,7 @@ class FloatCtx:
             return self.val(e["e"], env)
         if e.get("k") == "Lit":
             return float(e["v"])
-        return env[A.ident(e)]
+        return env[A.ident(e)].v
 
 
 def init_arg(init):
@@ -339,27 +349,26 @@ def r1b_truth_tables(rule, root=None):
         "if_nonzero_else": (3, lambda c, a, b: a if c != 0 else b),
     }
     for name, (n, spec) in specs.items():
-        for const_mode in (True, False):
-            # const_mode False: operands are not constants, so the `if let Op::Const` rewrites do not fire
+        for mask in itertools.product((True, False), repeat=n):
+            # mask[i]: operand i is a constant node (so the `if let Op::Const` / get_const rewrites may fire)
             bad = None
             cases = 0
             try:
                 for args in itertools.product(vals, repeat=n):
                     fc = FloatCtx(root)
-                    fc.const_mode = const_mode
-                    got = fc.call(name, list(args))
+                    got = fc.call(name, [Val(v, c) for v, c in zip(args, mask)])
                     want = spec(*args)
                     cases += 1
-                    if got != want and not (got == 0 and want == 0):
-                        bad = (args, got, want)
+                    if got is None or (got.v != want and not (got.v == 0 and want == 0)):
+                        bad = (args, None if got is None else got.v, want)
                         break
-            except (ValueError, KeyError, A.AnchorLost) as e:
+            except (ValueError, KeyError, AttributeError, A.AnchorLost) as e:
                 rule.bad("%s|model" % name, "Context::%s no longer fits the checker's model of the builder DSL (%s)" % (name, e), "")
-                continue
-            label = "constant operands (rewrites fire)" if const_mode else "non-constant operands"
+                break
+            label = "operands %s" % ", ".join("const" if c else "node" for c in mask)
             if bad:
                 fn = cfn(name, root)
-                rule.bad("%s|table|%s" % (name, "const" if const_mode else "node"), "Context::%s with %s: for operands %s the built expression evaluates to %s, its documented meaning is %s" % (name, label, bad[0], bad[1], bad[2]), A.where(fn))
+                rule.bad("%s|table|%s" % (name, "".join("c" if c else "n" for c in mask)), "Context::%s with %s: for values %s the built expression evaluates to %s, its documented meaning is %s" % (name, label, bad[0], bad[1], bad[2]), A.where(fn))
             else:
                 rule.ok("Context::%s meets its truth table on %d operand orderings (%s)" % (name, cases, label))
 
@@ -703,7 +712,7 @@ def r7_no_recursion(rule, root=None):
 def run(ctx):
     r = ctx.rule("R1", "constructor rewrites are identities over the reals under their premises", 20)
     ctx.guarded(r, r1_rewrites)
-    r = ctx.rule("R1b", "comparison / logic constructors meet their truth tables on every ordering of operands", 10)
+    r = ctx.rule("R1b", "comparison / logic constructors meet their truth tables on every ordering of operands", 24)
     ctx.guarded(r, r1b_truth_tables)
     r = ctx.rule("R2", "constructors build their namesake opcode in operand order; folding uses the opcode's eval; nodes are interned", 35)
     ctx.guarded(r, r2_namesakes)
